@@ -348,9 +348,21 @@ def gen_kill(ctx):
             c.kill = {"trials": max(1, trials // parts), "variants": vs, "max_ms": maxms}
             c.seed = rng.randrange(1 << 30)
             out.append(c)
+    # two processes storing into the same directory at the same time
+    for name, vs, trials, maxms in [("small", small, 16 if quick else 160, 8.0), ("mixed", mixed, 8 if quick else 80, 80.0)]:
+        parts = 2 if quick else 4
+        for p in range(parts):
+            c = Case("kill2_%s_%d" % (name, p), ndirs=1)
+            c.kill = {"trials": max(1, trials // parts), "variants": vs, "max_ms": maxms, "writers": 2,
+                      "count": 40 if name == "small" else 6}
+            c.seed = rng.randrange(1 << 30)
+            out.append(c)
     for n, k in enumerate(replay_items(ctx, "killcase")):
         c = Case("kill_%s_replay%d" % (k.get("kind", "small"), n), ndirs=1)
-        c.kill = {"trials": k.get("trials", 20), "variants": k["variants"], "max_ms": k.get("max_ms", 50.0)}
+        c.kill = {"trials": k.get("trials", 20), "variants": k["variants"], "max_ms": k.get("max_ms", 50.0),
+                  "writers": k.get("writers", 1), "count": k.get("count", 0)}
+        if c.kill["writers"] == 2:
+            c.name = "kill2_%s_replay%d" % (k.get("kind", "small"), n)
         c.seed = k.get("seed", 0)
         out.insert(0, c)
     return out
@@ -851,11 +863,46 @@ def eval_scripted(ctx, c, out):
         trace_terms += [g_tstep(s) for s in stp]
     vt = glist(sorted(v for v in valid if v is not None), lambda h: ihex(bytes.fromhex(h)))
     term = "(%s, %s, %s, %s, %s, %s)" % (vt, ihex(bytes.fromhex(mem0)), gN(c.ndirs - 1), "[" + ";\n  ".join(items) + "]",
-                                         glist(trace_terms), gbool(straced))
+                                         glist(trace_terms) if trace_terms else "(@nil tstep)", gbool(straced))
     return INTERN.wrap(term)
 
 
+def eval_kill2(ctx, c, out):
+    """two writers on one directory: the file must be the complete configuration of a store of one of them"""
+    kind = c.name.split("_")[1]
+    for t, k in enumerate(out.get("kills2") or []):
+        temps = k.get("temps") or []
+        case_id = {"case": c.name, "trial": t, "observed": {x: k[x] for x in ("last", "errs", "errcls", "killed", "match", "match_i",
+                                                                                 "parse_ok", "gen_in_file", "delay_ms")},
+                   "file_len": k["file"]["len"],
+                   "killcase": [{"kind": kind, "variants": c.kill["variants"], "seed": c.seed, "trials": c.kill["trials"],
+                                 "max_ms": c.kill["max_ms"], "writers": 2, "count": c.kill["count"]}]}
+        mode = "killed" if k["killed"] else "to-end"
+        ctx.count((c.name, t, tuple(k["last"]), k["match"], len(temps)), nontrivial=sum(k["last"]) > 0,
+                  kind="kill2/%s/%s/%s" % (kind, mode, k["match"] if k["match"] in ("prev", "none", "absent") else "writer"))
+        if k["match"] == "none":
+            ctx.fail("kill2:%s:file-is-no-stored-configuration" % kind,
+                     "two processes storing into one directory (%s): the ClientConf file (%d bytes, generation %s) is not the complete "
+                     "configuration of any store of either process%s" % (mode, k["file"]["len"], k["gen_in_file"],
+                                                                       "" if k["parse_ok"] else " and does not parse"), case_id)
+        elif k["match"] == "absent":
+            ctx.fail("kill2:%s:file-missing" % kind, "two processes storing into one directory: the ClientConf file is missing", case_id)
+        elif not k["killed"] and k["match"].startswith("writer") and k["match_i"] != c.kill["count"]:
+            ctx.fail("kill2:%s:final-file-is-not-a-last-store" % kind, "both processes ran to the end but the file holds store %d of %d"
+                     % (k["match_i"], c.kill["count"]), case_id)
+        if sum(k["errs"]):
+            ctx.fail("kill2:%s:healthy-store-failed" % kind, "two processes storing into one healthy directory: %d store(s) returned an "
+                     "error (%s)" % (sum(k["errs"]), ",".join(k.get("errcls") or [])), case_id)
+        if not k["killed"] and temps:
+            ctx.fail("kill2:%s:temporary-left-after-success" % kind, "both processes finished all stores but a temporary is left behind", case_id)
+        if not all(k.get("temp_ok") or []):
+            ctx.broken("correspondence", "two writers: a leftover temporary is not a prefix of a configuration being stored", case_id)
+
+
 def eval_kill(ctx, c, out):
+    if c.kill.get("writers") == 2:
+        eval_kill2(ctx, c, out)
+        return []
     terms = []
     kind = c.name.split("_")[1]
     for t, k in enumerate(out.get("kills") or []):
@@ -978,8 +1025,8 @@ def run(ctx):
         kterms += eval_kp(ctx, c, o)
     if scripted:
         c, o = scripted[0], outs[0]
-        ctx.sample({"case": c.name, "script": c.script[:6], "results": [{k: v for k, v in r.items() if k in ("op", "err")} for r in o["res"][:6]],
-                    "trace_lines": o["trace"][:8]})
+        ctx.sample({"case": c.name, "script": c.script[:6], "results": [{k: v for k, v in r.items() if k in ("op", "err")} for r in (o.get("res") or [])[:6]],
+                    "trace_lines": (o.get("trace") or [])[:8]})
     if kills:
         o = outs[len(scripted)]
         ctx.sample({"case": kills[0].name, "trials": o.get("kills", [])[:3]})
@@ -1004,6 +1051,10 @@ def run(ctx):
         if not hist.get("skipped/intervention-missed"):
             need += ["%s/dir-removed-before-rename/err" % k for k in KINDS] + ["%s/dir-removed-before-write/err" % k for k in KINDS]
     ctx.require_kinds(need)
+    for kind in ("small", "mixed"):
+        for mode in ("killed", "to-end"):
+            if not any(k.startswith("kill2/%s/%s/" % (kind, mode)) for k in hist):
+                ctx.broken("generator-selftest", "no two-writer trial %s/%s ran" % (kind, mode))
     for kind in ("small", "big", "mixed"):
         if not any(k.startswith("kill/%s/" % kind) for k in hist):
             ctx.broken("generator-selftest", "no kill trial of kind %s ran" % kind)
@@ -1020,7 +1071,7 @@ def run(ctx):
         shown = ctx.coq_show("mm" + tagpid, HEADER, "show (%s)" % terms[mm[0]])
         ctx.broken("correspondence", "model C20.Run and the implementation disagree on %d scripted case(s); first: %s; model says: %s"
                    % (len(mm), c.name, shown[-900:]),
-                   {"scripted": [ser_case(c)], "observed": {"res": o["res"], "trace": o["trace"][:60]}})
+                   {"scripted": [ser_case(c)], "observed": {"res": o["res"], "trace": (o.get("trace") or [])[:60]}})
     if kterms:
         mk = ctx.coq_mismatches("kill" + tagpid, HEADER, kterms, "chk_kill", shard=40)
         if mk:
